@@ -91,10 +91,10 @@ func limbsToBytes(l [4]uint64) []byte { // l[0] most significant
 }
 
 func limbAlphabet(n int) []uint64 {
-	full := []uint64{0, 1, 2, 0xffffffff, 0x100000000, 1 << 63, 0xfffffffffffffffe, 0xffffffffffffffff,
-		0xffffffff00000000, 0xfffffffeffffffff, 0xffffffff00000001, 0xfffffffefffffffe, 0xfffffffeffffffff + 1,
+	full := []uint64{0, 1, 2, 0xffffffff, 0x100000000, 1 << 63, 0x7fffffffffffffff, 0xfffffffffffffffe, 0xffffffffffffffff,
+		0xffffffff00000000, 0xfffffffeffffffff, 0xffffffff00000001, 0xfffffffefffffffe, 0xfffffffeffffffff + 1, 0x7fffffff80000000,
 		0x53BBF40939D54123, 0x7203DF6B21C6052B, 0x53BBF40939D54122, 0x53BBF40939D54124, 0x7203DF6B21C6052A, 0x7203DF6B21C6052C,
-		0xfffffffffffffffe - 0xffffffff, 0x8000000000000001, 0x7fffffffffffffff}
+		0xfffffffffffffffe - 0xffffffff, 0x8000000000000001}
 	if n > len(full) {
 		n = len(full)
 	}
@@ -133,11 +133,36 @@ func c16binary(r *vx.R, field, op string, ab, bb []byte) {
 		o.set(b)
 		o.sub(a, o)
 		want.Sub(ai, bi)
+	case "add-same": // both operands are the same object (b is ignored)
+		o.add(a, a)
+		want.Add(ai, ai)
+	case "mul-same":
+		o.mul(a, a)
+		want.Mul(ai, ai)
+	case "sub-same":
+		o.sub(a, a)
+	case "add-same-recv": // receiver and both operands are the same object
+		o.set(a)
+		o.add(o, o)
+		want.Add(ai, ai)
+	case "mul-same-recv":
+		o.set(a)
+		o.mul(o, o)
+		want.Mul(ai, ai)
 	}
 	want.Mod(want, m)
 	got := o.bytes()
 	if !bytes.Equal(got, sm2ref.Bytes32(want)) {
 		r.Violation("fe:"+field+":"+op, fmt.Sprintf("%s mod %s: %x op %x = %x, integers say %x", op, field, ab, bb, got, sm2ref.Bytes32(want)), c16case{field, op, vx.Hex(ab), vx.Hex(bb)})
+	}
+	// the result is used on: 0 - result must be the negative (a result whose limbs are not fully reduced encodes the
+	// right bytes but computes wrongly afterwards)
+	zero, neg := newElem(field), newElem(field)
+	neg.sub(zero, o)
+	wn := new(big.Int).Sub(m, want)
+	wn.Mod(wn, m)
+	if !bytes.Equal(neg.bytes(), sm2ref.Bytes32(wn)) {
+		r.Violation("fe:"+field+":"+op+":then-negate", fmt.Sprintf("0 - (%x %s %x) = %x, integers say %x (the intermediate result is not fully reduced)", ab, op, bb, neg.bytes(), sm2ref.Bytes32(wn)), c16case{field, op, vx.Hex(ab), vx.Hex(bb)})
 	}
 	if !bytes.Equal(a.bytes(), ab) || !bytes.Equal(b.bytes(), bb) {
 		r.Violation("fe:"+field+":"+op+":operand-modified", "an operand was modified", c16case{field, op, vx.Hex(ab), vx.Hex(bb)})
@@ -251,7 +276,7 @@ func c16decode(r *vx.R, field string, b []byte, shape string) {
 }
 
 func TestVX_C16(t *testing.T) {
-	r := vx.Begin("C16", "field", "limb alphabet V (0,1,2,2^32-1,2^32,2^63,2^64-2,2^64-1, limbs of p and n and their +-1, ...); residues = V^4 filtered < m; unary ops (roundtrip,square,invert(+aliased),iszero,select,equal,opp,tobigint) on all residues; binary ops add/sub/mul (+aliased receiver) on R x R for a sub-alphabet; SetBytes on m-1,m,m+1,2^256-1, every 'm with byte i +-1', lengths 0..40; oracle math/big mod m, canonical 32-byte results. Shape = (field, op, limb-index tuple)")
+	r := vx.Begin("C16", "field", "limb alphabet V (0,1,2,2^32-1,2^32,2^63,2^64-2,2^64-1, limbs of p and n and their +-1, ...); residues = V^4 filtered < m, each also read as a Montgomery form (value t*2^-256 mod m); unary ops (roundtrip,square,invert(+aliased),iszero,select,equal,opp,tobigint) on all residues; binary ops add/sub/mul (+aliased receiver) on R x R for a sub-alphabet, every result negated afterwards (catches results that are not fully reduced); add/mul/sub with both operands (and the receiver) being the same object on all residues; SetBytes on m-1,m,m+1,2^256-1, every 'm with byte i +-1', m-1 and m +- 2^k for every k and +- / xor half-word and word masks, lengths 0..40; oracle math/big mod m, canonical 32-byte results. Shape = (field, op, limb-index tuple)")
 	defer r.End()
 	if raw, ok := vx.Replay("field"); ok {
 		var c c16case
@@ -259,7 +284,7 @@ func TestVX_C16(t *testing.T) {
 		switch c.Op {
 		case "decode":
 			c16decode(r, c.Field, vx.UnHex(c.A), "replay")
-		case "add", "sub", "mul", "add-alias", "mul-alias", "sub-alias":
+		case "add", "sub", "mul", "add-alias", "mul-alias", "sub-alias", "add-same", "mul-same", "sub-same", "add-same-recv", "mul-same-recv":
 			c16binary(r, c.Field, c.Op, vx.UnHex(c.A), vx.UnHex(c.B))
 		default:
 			c16unary(r, c.Field, vx.UnHex(c.A))
@@ -291,6 +316,14 @@ func TestVX_C16(t *testing.T) {
 					}
 				}
 			}
+			// the same limb tuples as *Montgomery forms*: the value is t * 2^-256 mod m, so that the internal representation
+			// (what the limb arithmetic actually sees) carries the carry-critical pattern
+			rinv := new(big.Int).ModInverse(new(big.Int).Lsh(big.NewInt(1), 256), m)
+			for _, bs := range append([][]byte{}, out...) {
+				v := new(big.Int).Mul(new(big.Int).SetBytes(bs), rinv)
+				v.Mod(v, m)
+				out = append(out, sm2ref.Bytes32(v))
+			}
 			// always include m-1, m-2, (m-1)/2, (m+1)/2 and seeded values
 			for _, d := range []int64{1, 2, 3} {
 				out = append(out, sm2ref.Bytes32(new(big.Int).Sub(m, big.NewInt(d))))
@@ -310,6 +343,9 @@ func TestVX_C16(t *testing.T) {
 				continue
 			}
 			c16unary(r, field, a)
+			for _, op := range []string{"add-same", "mul-same", "sub-same", "add-same-recv", "mul-same-recv"} {
+				c16binary(r, field, op, a, a)
+			}
 			r.Shape(fmt.Sprintf("un:%s:%d", field, i))
 			if i%97 == 0 {
 				r.Sample(c16case{field, "unary", vx.Hex(a), ""})
@@ -364,6 +400,29 @@ func TestVX_C16(t *testing.T) {
 							}
 						}
 						c16decode(r, field, b, fmt.Sprintf("byte%d%+d:t%d", i, d, tail))
+					}
+				}
+			}
+			mm1 := new(big.Int).Sub(m, big.NewInt(1))
+			lim := new(big.Int).Lsh(big.NewInt(1), 256)
+			var masks []*big.Int
+			for k := uint(0); k < 256; k++ {
+				masks = append(masks, new(big.Int).Lsh(big.NewInt(1), k))
+			}
+			for w := uint(0); w < 8; w++ {
+				masks = append(masks, new(big.Int).Lsh(big.NewInt(0xffff0000), 32*w), new(big.Int).Lsh(big.NewInt(0x0000ffff), 32*w), new(big.Int).Lsh(big.NewInt(0xffffffff), 32*w))
+			}
+			for mi, mk := range masks {
+				for _, base := range []*big.Int{mm1, m} {
+					for sgn := -1; sgn <= 1; sgn += 2 {
+						v := new(big.Int).Add(base, new(big.Int).Mul(mk, big.NewInt(int64(sgn))))
+						if v.Sign() >= 0 && v.Cmp(lim) < 0 {
+							c16decode(r, field, sm2ref.Bytes32(v), fmt.Sprintf("perturb%d:%d", mi, sgn))
+						}
+						x := new(big.Int).Xor(base, mk)
+						if x.Cmp(lim) < 0 {
+							c16decode(r, field, sm2ref.Bytes32(x), fmt.Sprintf("xor%d", mi))
+						}
 					}
 				}
 			}
